@@ -136,29 +136,74 @@ type omapIter struct {
 	m       *omap
 	i       int
 	visited map[*ment]bool
+	nondet  bool
+	order   []*ment
+	chosen  bool
 }
 
+// In nondeterministic-order mode the order of a whole range loop is one
+// decision: with all-orders every permutation of the live entries is explored
+// step by step; otherwise n+1 representative orders: the n rotations of the
+// insertion order and its reverse (Go itself starts the iteration of a map at a
+// random position).
 func (it *omapIter) next() tuple {
 	if it.m == nil {
 		return tuple{false, nil, nil}
 	}
-	if it.ps != nil && it.ps.nondetMap {
-		var cand []*ment
-		for _, e := range it.m.ents {
-			if !e.deleted && !it.visited[e] {
-				cand = append(cand, e)
-			}
-		}
-		if len(cand) == 0 {
-			return tuple{false, nil, nil}
-		}
-		c := it.ps.choose('m', len(cand))
-		e := cand[c]
+	if it.nondet && it.ps != nil && it.ps.nondetMap {
 		if it.visited == nil {
 			it.visited = map[*ment]bool{}
 		}
-		it.visited[e] = true
-		return tuple{true, e.key, e.val}
+		if it.ps.nondetMapAll {
+			var cand []*ment
+			for _, e := range it.m.ents {
+				if !e.deleted && !it.visited[e] {
+					cand = append(cand, e)
+				}
+			}
+			if len(cand) == 0 {
+				return tuple{false, nil, nil}
+			}
+			e := cand[it.ps.choose('m', len(cand))]
+			it.visited[e] = true
+			return tuple{true, e.key, e.val}
+		}
+		if !it.chosen {
+			it.chosen = true
+			var live []*ment
+			for _, e := range it.m.ents {
+				if !e.deleted {
+					live = append(live, e)
+				}
+			}
+			n := len(live)
+			if n > 1 {
+				c := it.ps.choose('m', n+1)
+				if c == n {
+					for k := n - 1; k >= 0; k-- {
+						it.order = append(it.order, live[k])
+					}
+				} else {
+					it.order = append(append(it.order, live[c:]...), live[:c]...)
+				}
+			} else {
+				it.order = live
+			}
+		}
+		for _, e := range it.order {
+			if !e.deleted && !it.visited[e] {
+				it.visited[e] = true
+				return tuple{true, e.key, e.val}
+			}
+		}
+		// entries inserted during the iteration
+		for _, e := range it.m.ents {
+			if !e.deleted && !it.visited[e] {
+				it.visited[e] = true
+				return tuple{true, e.key, e.val}
+			}
+		}
+		return tuple{false, nil, nil}
 	}
 	for it.i < len(it.m.ents) {
 		e := it.m.ents[it.i]
